@@ -1187,7 +1187,9 @@ LEVEL_TEXT = (
     "are in [1e-5, max double] for EVERY input class (NaN, +-inf, finite) and for ANY cosmology object; the "
     "mode-selection decision table of cosmo_instance; interpolated modes are exact at the nodes and within the "
     "comoving distance across one panel elsewhere (any node count, by induction); user-tabulated distances are "
-    "reproduced at the tabulated redshifts in all three curvature branches; the Float quadrature (composite "
+    "reproduced at the tabulated redshifts in all three curvature branches, the recovered comoving distance is exact up "
+    "to the equator of a closed model and the mirror point beyond it (known finding F20: table_comoving_before_equator / "
+    "table_comoving_beyond_equator_ne); the Float quadrature (composite "
     "Simpson, any depth) is positive and cubic-exact; the real integral of the model's integrand is additive and "
     "positive wherever E^2>0.  The same definitions are executed at Float against the real code in all five "
     "supply modes, and the property statement (equality with an independent Friedmann integration, mode "
